@@ -140,6 +140,13 @@ def firstGuard (env : Env) : List Guard → Except FErr (Option Guard)
        | .ok (.bool false) => firstGuard env gs
        | .ok _ => .error .guardKind)
 
+/-- the environment of the machine is the one the arm was entered with: what the arm's pattern bound
+    lives in a copy (`arm_env`) that is dropped when the arm has been taken -/
+def leave (env : Env) : Except FErr StepR → Except FErr StepR
+  | .ok (.moved s _) => .ok (.moved s env)
+  | .ok (.out v _) => .ok (.out v env)
+  | r => r
+
 /-- one turn of the loop body: the arms in order -/
 def stepArms (s : StateV) (env : Env) : List Arm → Except FErr StepR
   | [] => .ok .stuck
@@ -148,11 +155,11 @@ def stepArms (s : StateV) (env : Env) : List Arm → Except FErr StepR
      | none => stepArms s env rest
      | some env' =>
        match arm.body with
-       | .direct t => applyTarget env' t
+       | .direct t => leave env (applyTarget env' t)
        | .guarded gs =>
          (match firstGuard env' gs with
           | .error e => .error e
-          | .ok (some g) => applyTarget env' g.target
+          | .ok (some g) => leave env (applyTarget env' g.target)
           | .ok none => stepArms s env rest))       -- no guard held: later arms are tried
 
 /-- the state as the value the machine returns when nothing applies (halt) -/
